@@ -660,6 +660,22 @@ def _eng_cases(rng, tier):
             qs.append((restr, agg))
         out.append({"kind": "engine", "line": "", "cfg": cfg, "script": [list(x) for x in script], "evs": evs, "qs": qs,
                     "show": f"engine {cfg}: {len(evs)} events, " + "; ".join(f"QUERY t{r} {a}" for r, a in qs)})
+    # a slow shard: every shard's scan of the aggregate query is held at its first step for longer than any
+    # plausible per-shard patience (6 s); the answer must still be the fold over the selection (a shard that answers
+    # late is part of the answer)
+    for i in range(1 if tier == "quick" else 6):
+        cfg = dict(rng.choice([c for c in _E.CFGS if c["shards"] > 1])); cfg["segments_per_merge"] = 2
+        nctx = rng.range(3, 6)
+        evs, script = _E.gen_population(rng, rng.range(8, 30), nctx, 10)
+        script = [st for st in script if st[0] == "cmd"]          # no restarts / compactions here
+        script.append(("quiesce",))
+        qs = []
+        for agg in rng.choice([["COUNT BY g", "TOTAL k"], ["COUNT", "COUNT, TOTAL k BY g"]]):
+            script.append(("cmd", "QUERY t"))
+            script.append(("slowread", f"QUERY t {agg}", "rd_scan_start", rng.choice([5600, 6500])))
+            qs.append(("", agg))
+        out.append({"kind": "engine", "line": "", "cfg": cfg, "script": [list(x) for x in script], "evs": evs, "qs": qs,
+                    "show": f"engine slow-shard {cfg}: {len(evs)} events, " + "; ".join(f"QUERY t {a} (scans held > 5 s)" for _, a in qs)})
     # scale: more rows in ONE flow than a source batch holds (32 768), so that per-batch partial states are combined
     # inside a flow; a group that occurs in the first batch only, one that first appears late, null metric cells
     for i in range(1 if tier == "quick" else 4):
